@@ -538,7 +538,15 @@ class RefNcpAsh:
         elif fr.kind == "NAK":
             self._st("rx_nak")
             self._handle_ack(fr.ack)
-            # retransmit everything still outstanding (go-back-N)
+            # retransmit everything still outstanding (go-back-N); a frame the host keeps rejecting is
+            # given up after a generous number of attempts (the endpoint then reports ERROR and stops)
+            if self.unacked and self.unacked[0].sent > 24:
+                self._st("gave_up_after_naks")
+                self.failed = True
+                if self._timer is not None:
+                    self._timer.cancel()
+                self.write(encode_error(0x51))
+                return
             for o in self.unacked:
                 self._send_data(o)
             self._pump()
